@@ -2,6 +2,7 @@
 from rules import io as r_io
 from rules import hdr_tolerant as r_hdrt
 from rules import wr_frame as r_wrf
+from rules import si as r_si
 
 PROPS = {}
 
@@ -85,3 +86,54 @@ prop("C16",
      level_text="Static frame guarantee: on the analysed source write() cannot reach a store to any LASFile location "
                 "outside the documented list, and the refresh decision/values have the documented shape; "
                 "byte-level determinism and numeric truth are not decided.")
+
+prop("C15",
+     [r_si.rule_accessors, r_si.rule_compare, r_si.rule_get_pure, r_si.rule_setvalue_only],
+     "Sibling cross-check of the SectionItems accessors: __contains__, __getitem__, __delitem__ and set_item relate "
+     "the key to an item only through self.mnemonic_compare(key, item.mnemonic) (census of every comparison that "
+     "mentions the key and an element), in a single front-to-back loop over self that leaves at the first match and "
+     "performs the documented action on the matched position; integers/slices fall through to list methods under an "
+     "isinstance guard and other misses raise KeyError; __getattr__/__setattr__/get/set_item_value decide membership "
+     "with `in self` and fetch with self[key] without a comparison of their own (SI.ACCESSORS). mnemonic_compare is == "
+     "on its two arguments, with the same case mapping on both sides exactly under mnemonic_transforms (SI.COMPARE). "
+     "By effect summaries and control dependence get() modifies the section only by one append under `add`, never "
+     "modifies or returns the default object (SI.GET-PURE); set_item_value writes only .value and __setitem__ "
+     "dispatches on isinstance(newitem, HeaderItem) (SI.SETVALUE-ONLY). Not decided: agreement on every reachable "
+     "state (needs C13's distinctness).",
+     COMMON_ASSUMPTIONS, "DESIGN.md section 4, C15",
+     technique="sibling cross-checking of lookup loops + comparison census + effect summaries",
+     level_text="Static agreement of the lookup protocol across all accessors on the analysed source (structural "
+                "necessary condition); behaviour on concrete section states is not executed.")
+
+prop("C13",
+     [r_si.rule_suffix_after_insert, r_si.rule_suffix_algo, r_si.rule_session_only, r_si.rule_unknown],
+     "Pairing rule on CFG paths: in every SectionItems method each placement of an item through list.append/insert/"
+     "__setitem__/extend is followed on every path to a normal return by assign_duplicate_suffixes, called "
+     "unconditionally with the new item's useful_mnemonic; LASFile.set_data re-assigns all suffixes after renaming "
+     "(SI.SUFFIX-AFTER-INSERT). Shape of the renumbering: duplicates found only by mnemonic_compare on "
+     "useful_mnemonic (no exact count/==), numbered ':%d' % (enumerate index + 1) through set_session_mnemonic_only, "
+     "only when more than one match, no early return (SI.SUFFIX-ALGO). Disambiguation never stores to "
+     "mnemonic/original_mnemonic inside SectionItems, the session setter writes only the session name, the rename hook "
+     "and constructor keep the original verbatim, set_data's default names derive from original_mnemonic "
+     "(SI.SESSION-ONLY); useful_mnemonic is 'UNKNOWN' iff blank (SI.UNKNOWN). Not decided: value-level collisions "
+     "(a literal 'A:1' next to generated suffixes) and stale suffixes after deletion.",
+     COMMON_ASSUMPTIONS, "DESIGN.md section 4, C13",
+     technique="must-pass-through on CFG paths (placement -> renumbering) + algorithm shape + effect census",
+     level_text="Static guarantee that no insertion path skips renumbering and that renumbering has the documented "
+                "shape; distinctness for every multiset/history is not decided.")
+
+prop("C17",
+     [r_si.rule_pk_state, r_si.rule_pk_rebuild],
+     "State-coverage check: the census of attributes an item can hold (every self.X store and "
+     "__setattr__('X') in HeaderItem/CurveItem) is compared with what HeaderItem.__reduce__ hands to the "
+     "constructor and to __setstate__: argument 0 derives from self.original_mnemonic (not the session name), the "
+     "other arguments from the like-named attributes in constructor order, the session mnemonic is carried "
+     "unconditionally as state and restored through set_session_mnemonic_only without a condition (PK.STATE). Every "
+     "other lasio class that defines a pickle/copy hook (__reduce__, __getstate__, __setstate__, __copy__, "
+     "__deepcopy__) must carry its whole attribute census - no popped/filtered state, no 2-tuple reduce for a class "
+     "with instance attributes, no `return self` (PK.REBUILD). Not decided: byte-identical write() output of copies.",
+     COMMON_ASSUMPTIONS + ["default object/list pickling carries __dict__ and re-appends list items"],
+     "DESIGN.md section 4, C17",
+     technique="attribute census vs. reduce/state coverage with provenance of each constructor argument",
+     level_text="Static completeness of the copied state on the analysed source; equality of copies on concrete "
+                "objects is not executed.")
